@@ -497,4 +497,191 @@ theorem devnull_never_stripped (ts : Bytes) (strip : Int) :
   · rw [devNull_eq]; simp [DQUOTE]
   · rw [devNull_eq]; simp [TAB]
 
+/-! ### git: names on the extended header lines and on the `diff --git` line -/
+
+theorem str_rename_from : str "rename from " = [114, 101, 110, 97, 109, 101, 32, 102, 114, 111, 109, 32] := by
+  unfold str String.toUTF8; rw [Cpp.byteArray_toList_eq_data]; rfl
+theorem str_rename_to : str "rename to " = [114, 101, 110, 97, 109, 101, 32, 116, 111, 32] := by
+  unfold str String.toUTF8; rw [Cpp.byteArray_toList_eq_data]; rfl
+theorem str_copy_from : str "copy from " = [99, 111, 112, 121, 32, 102, 114, 111, 109, 32] := by
+  unfold str String.toUTF8; rw [Cpp.byteArray_toList_eq_data]; rfl
+theorem str_copy_to : str "copy to " = [99, 111, 112, 121, 32, 116, 111, 32] := by
+  unfold str String.toUTF8; rw [Cpp.byteArray_toList_eq_data]; rfl
+theorem str_a : str "a/" = [97, 47] := by
+  unfold str String.toUTF8; rw [Cpp.byteArray_toList_eq_data]; rfl
+theorem str_b : str "b/" = [98, 47] := by
+  unfold str String.toUTF8; rw [Cpp.byteArray_toList_eq_data]; rfl
+theorem str_sp_b : str " b/" = [32, 98, 47] := by
+  unfold str String.toUTF8; rw [Cpp.byteArray_toList_eq_data]; rfl
+
+/-- `-p0` leaves every name as it is -/
+theorem stripPath_zero (p : Bytes) : stripPath p 0 = p := by
+  have h := stripPath_nonneg p 0
+  rw [stripLoop_spec] at h
+  simpa [stripSpec] using h
+
+theorem consumeStr_self_append (s r : Bytes) : consumeStr s (s ++ r) = some r := by
+  unfold consumeStr
+  have : s.isPrefixOf (s ++ r) = true := by
+    rw [List.isPrefixOf_iff_prefix]; exact List.prefix_append s r
+  simp [this]
+
+/-- the `parse_filename` closure of `parseGitExtendedInfo` with `-p0`, on a name that is not quoted -/
+theorem gitFilename_p0 (n : Bytes) (hq : n.head? ≠ some DQUOTE) :
+    (match n with
+      | c :: _ =>
+        if c == DQUOTE then
+          match parseQuotedString n with
+          | .error e => (.error e : Except Exn Bytes)
+          | .ok (s, _) => .ok (stripPath s 0)
+        else .ok (stripPath n 0)
+      | [] => .ok (stripPath n 0)) = .ok n := by
+  cases n with
+  | nil => simp [stripPath_zero]
+  | cons c r =>
+    have hc : (c == DQUOTE) = false := by simpa using hq
+    simp [hc, stripPath_zero]
+
+theorem findSome?_range_first {α} (f : Nat → Option α) (a : α) (k : Nat) (hf : f k = some a)
+    (hnone : ∀ j, j < k → f j = none) : ∀ n, k < n → (List.range n).findSome? f = some a := by
+  intro n
+  induction n with
+  | zero => intro h; omega
+  | succ n ih =>
+    intro hk
+    rw [List.range_succ, List.findSome?_append]
+    by_cases h : k < n
+    · rw [ih h]; rfl
+    · have hkn : k = n := by omega
+      subst hkn
+      have : (List.range k).findSome? f = none := by
+        rw [List.findSome?_eq_none_iff]
+        intro j hj
+        exact hnone j (List.mem_range.1 hj)
+      rw [this]
+      simp [hf]
+
+/-- where the two halves of a `diff --git` line can name the same file: only in the middle of the text -/
+theorem git_split_middle (r : Bytes) (pos : Nat) (ha : (str "a/").isPrefixOf r = true)
+    (hb : (str " b/").isPrefixOf (r.drop pos) = true)
+    (heq : (r.take pos).drop 2 = r.drop (pos + 3)) : 2 * pos + 1 = r.length := by
+  rw [str_a] at ha
+  rw [str_sp_b] at hb
+  have h3 : pos + 3 ≤ r.length := by
+    have := List.IsPrefix.length_le (List.isPrefixOf_iff_prefix.1 hb)
+    simp only [List.length_cons, List.length_nil, List.length_drop] at this
+    omega
+  have h2 : 2 ≤ pos := by
+    match r, pos, ha, hb with
+    | c0 :: c1 :: _, 0, ha, hb =>
+      simp only [List.isPrefixOf, List.drop_zero, Bool.and_eq_true, beq_iff_eq] at ha hb
+      exact absurd (ha.1.trans hb.1.symm) (by decide)
+    | c0 :: c1 :: _, 1, ha, hb =>
+      simp only [List.isPrefixOf, List.drop_succ_cons, List.drop_zero, Bool.and_eq_true, beq_iff_eq] at ha hb
+      exact absurd (ha.2.1.trans hb.1.symm) (by decide)
+    | _, n + 2, _, _ => omega
+    | [], 0, ha, _ => simp [List.isPrefixOf] at ha
+    | [], 1, ha, _ => simp [List.isPrefixOf] at ha
+    | [_], 0, ha, _ => simp [List.isPrefixOf] at ha
+    | [_], 1, ha, _ => simp [List.isPrefixOf] at ha
+  have := congrArg List.length heq
+  simp only [List.length_drop, List.length_take] at this
+  omega
+
+theorem git_rename_from_p0 (n : Bytes) (p : Patch) (hq : n.head? ≠ some DQUOTE) :
+    parseGitExtendedInfo (str "rename from " ++ n) p 0
+      = .ok (true, { p with operation := .rename, oldPath := str "a/" ++ n }) := by
+  unfold parseGitExtendedInfo
+  simp only [consumeStr_self_append, if_true]
+  cases n with
+  | nil => simp [stripPath_zero, Except.map]
+  | cons c r =>
+    have hc : (c == DQUOTE) = false := by simpa using hq
+    simp [hc, stripPath_zero, Except.map]
+
+theorem git_rename_to_p0 (n : Bytes) (p : Patch) (hq : n.head? ≠ some DQUOTE) :
+    parseGitExtendedInfo (str "rename to " ++ n) p 0
+      = .ok (true, { p with operation := .rename, newPath := str "b/" ++ n }) := by
+  have h1 : consumeStr (str "rename from ") (str "rename to " ++ n) = none := by
+    rw [str_rename_from, str_rename_to]; simp [consumeStr, List.isPrefixOf]
+  unfold parseGitExtendedInfo
+  simp only [h1, consumeStr_self_append, if_true]
+  cases n with
+  | nil => simp [stripPath_zero, Except.map]
+  | cons c r =>
+    have hc : (c == DQUOTE) = false := by simpa using hq
+    simp [hc, stripPath_zero, Except.map]
+
+theorem git_copy_to_p0 (n : Bytes) (p : Patch) (hq : n.head? ≠ some DQUOTE) :
+    parseGitExtendedInfo (str "copy to " ++ n) p 0
+      = .ok (true, { p with operation := .copy, newPath := str "b/" ++ n }) := by
+  have h1 : consumeStr (str "rename from ") (str "copy to " ++ n) = none := by
+    rw [str_rename_from, str_copy_to]; simp [consumeStr, List.isPrefixOf]
+  have h2 : consumeStr (str "rename to ") (str "copy to " ++ n) = none := by
+    rw [str_rename_to, str_copy_to]; simp [consumeStr, List.isPrefixOf]
+  unfold parseGitExtendedInfo
+  simp only [h1, h2, consumeStr_self_append, if_true]
+  cases n with
+  | nil => simp [stripPath_zero, Except.map]
+  | cons c r =>
+    have hc : (c == DQUOTE) = false := by simpa using hq
+    simp [hc, stripPath_zero, Except.map]
+
+theorem git_copy_from_p0 (n : Bytes) (p : Patch) (hq : n.head? ≠ some DQUOTE) :
+    parseGitExtendedInfo (str "copy from " ++ n) p 0
+      = .ok (true, { p with operation := .copy, oldPath := str "a/" ++ n }) := by
+  have h1 : consumeStr (str "rename from ") (str "copy from " ++ n) = none := by
+    rw [str_rename_from, str_copy_from]; simp [consumeStr, List.isPrefixOf]
+  have h2 : consumeStr (str "rename to ") (str "copy from " ++ n) = none := by
+    rw [str_rename_to, str_copy_from]; simp [consumeStr, List.isPrefixOf]
+  have h3 : consumeStr (str "copy to ") (str "copy from " ++ n) = none := by
+    rw [str_copy_to, str_copy_from]; simp [consumeStr, List.isPrefixOf]
+  unfold parseGitExtendedInfo
+  simp only [h1, h2, h3, consumeStr_self_append, if_true]
+  cases n with
+  | nil => simp [stripPath_zero, Except.map]
+  | cons c r =>
+    have hc : (c == DQUOTE) = false := by simpa using hq
+    simp [hc, stripPath_zero, Except.map]
+
+/-- the position where the two halves of `a/X b/X` name the same file -/
+theorem git_header_same_name (x : Bytes) (strip : Int) :
+    parseGitHeaderName (str "a/" ++ x ++ str " b/" ++ x) strip = .ok (stripPath (str "a/" ++ x) strip) := by
+  have hr : str "a/" ++ x ++ str " b/" ++ x = 97 :: 47 :: (x ++ 32 :: 98 :: 47 :: x) := by
+    rw [str_a, str_sp_b]; simp
+  generalize hR : str "a/" ++ x ++ str " b/" ++ x = r at hr
+  have hlen : r.length = 2 * x.length + 5 := by rw [hr]; simp; omega
+  have hpre : (str "a/").isPrefixOf r = true := by rw [str_a, hr]; simp [List.isPrefixOf]
+  have htake : r.take (x.length + 2) = str "a/" ++ x := by
+    rw [str_a, hr]; simp [List.take_succ_cons]
+  have hdrop : r.drop (x.length + 2) = str " b/" ++ x := by
+    rw [str_sp_b, hr]; simp
+  have hdrop3 : r.drop (x.length + 2 + 3) = x := by
+    rw [hr]; simp [List.drop_succ_cons]
+  have hsplit : (if (str "a/").isPrefixOf r then
+          (List.range r.length).findSome? fun pos =>
+            if (str " b/").isPrefixOf (r.drop pos) ∧ (r.take pos).drop 2 = r.drop (pos + 3) then some (r.take pos) else none
+        else none) = some (str "a/" ++ x) := by
+    rw [if_pos hpre]
+    apply findSome?_range_first _ _ (x.length + 2) _ _ _ (by omega)
+    · have h1 : (str " b/").isPrefixOf (str " b/" ++ x) = true := by
+        rw [List.isPrefixOf_iff_prefix]; exact List.prefix_append _ _
+      have h2 : (str "a/" ++ x).drop 2 = x := by rw [str_a]; rfl
+      simp only [hdrop, hdrop3, htake, h1, h2, and_self, if_true]
+    · intro j hj
+      split
+      · rename_i hc
+        have := git_split_middle r j hpre hc.1 hc.2
+        omega
+      · rfl
+  cases r with
+  | nil => simp at hlen
+  | cons c rest =>
+    have hc : (c == DQUOTE) = false := by
+      have : c = 97 := (List.cons.inj hr).1
+      rw [this]; decide
+    unfold parseGitHeaderName
+    simp only [hc, Bool.false_eq_true, if_false]
+    rw [hsplit]
+
 end PatchModel.Names
